@@ -1,4 +1,4 @@
-import RsslVerif.Lemmas.ElabExact
+import RsslVerif.Lemmas.ElabRelease
 import RsslVerif.Lemmas.Overload
 /-!
 # C03 — accepted programs elaborate to well-typed IR; ill-typed programs are rejected
@@ -11,48 +11,25 @@ All are universally quantified: any environment, any expression nesting, any typ
 namespace RsslVerif.Thm.C03
 open RsslVerif.Gen.RankTable RsslVerif.Gen.TypingTables RsslVerif.Model.Conv RsslVerif.Model.Overload
 open RsslVerif.Model.IrTyping RsslVerif.Model.Elab RsslVerif.Lemmas.ElabConv RsslVerif.Lemmas.Elab
-open RsslVerif.Lemmas.ElabForms RsslVerif.Lemmas.ElabExact RsslVerif.Lemmas.Overload RsslVerif.Spec.Overload
+open RsslVerif.Lemmas.ElabForms RsslVerif.Lemmas.ElabExact RsslVerif.Lemmas.ElabRelease RsslVerif.Lemmas.Overload
+open RsslVerif.Spec.Overload
 
 /-! ## `ImplicitConversion::find` -/
 
-/-- **What a found conversion produces.**  `get_target_type` never panics on a conversion returned by `find`; the
-    value category and the layer (scalar kind and dimension) of the result are always the requested ones; the
-    modifier is the requested one **except** when a numeric (primary) cast meets identical source and destination
-    modifiers, where the result is unmodified. -/
-theorem find_target_layer {s d : ETy} {c : Conversion} (h : find s d = .ok (some c)) :
-    ∃ t, targetType c = .ok t ∧ t.vt = d.vt ∧ t.ty.layer = d.ty.layer ∧
-      (t.ty.mod = d.ty.mod ∨ (t.ty.mod = {} ∧ s.ty.mod = d.ty.mod ∧ c.primary ≠ none ∧ d.vt = .rvalue)) :=
+/-- **`find` is sound**: every conversion `ImplicitConversion::find` returns produces exactly the requested type —
+    `get_target_type` does not panic on it and gives the destination's value category, layer **and modifier**.
+    (Before fix 828cdd4 this failed for a numeric cast between equally modified types: `const int → const float`
+    produced `float`; that witness, `find_sound_fails`, is gone.) -/
+theorem find_sound {s d : ETy} {c : Conversion} (h : find s d = .ok (some c)) : targetType c = .ok d :=
   targetType_ok h
 
-/-- `find_sound` where it holds: the conversion produces exactly the destination type whenever no numeric cast is
-    involved, or source and destination modifiers differ, or the destination is unmodified.
-    (Partial: the unrestricted statement is false, see `find_sound_fails`.) -/
-theorem find_sound_partial {s d : ETy} {c : Conversion} (h : find s d = .ok (some c))
-    (hc : c.primary = none ∨ s.ty.mod ≠ d.ty.mod ∨ d.ty.mod = {}) : targetType c = .ok d := by
-  obtain ⟨t, ht, hv, hl, hm⟩ := targetType_ok h
-  rw [ht]
-  have hmod : t.ty.mod = d.ty.mod := by
-    rcases hm with hm | ⟨hm0, hsd, hp, _⟩
-    · exact hm
-    · rcases hc with hc | hc | hc
-      · exact absurd hc hp
-      · exact absurd hsd hc
-      · rw [hm0, hc]
-  obtain ⟨⟨tm, tl⟩, tv⟩ := t
-  obtain ⟨⟨dm, dl⟩, dv⟩ := d
-  simp only at hv hl hmod
-  subst hv hl hmod
-  rfl
-
-/-- **`find_sound` is false on the current code**: converting a `const int` lvalue to a `const float` rvalue is found,
-    but `get_target_type` says `float`, not `const float` (same for `volatile`, `row_major`, ... on both sides).
-    Replayed on the implementation by the `C03.conv` table and by `volatile int a; volatile float b; b = a;`. -/
-theorem find_sound_fails :
-    ∃ s d c, find s d = .ok (some c) ∧ targetType c ≠ .ok d :=
-  ⟨⟨⟨{ isConst := true }, .scalar .int32⟩, .lvalue⟩, ⟨⟨{ isConst := true }, .scalar .float32⟩, .rvalue⟩,
-    ⟨⟨⟨{ isConst := true }, .scalar .int32⟩, .lvalue⟩, true, none,
-      some ⟨.scalar .int32, .scalar .float32, .conversion⟩, none⟩,
-    by rfl, by simp [targetType]⟩
+/-- non-vacuity, and the former counterexample: `const int` lvalue → `const float` rvalue and `volatile int` lvalue →
+    `volatile float` rvalue are found, with a numeric cast, and now carry the modifier cast -/
+example :
+    (match find ⟨⟨{ isConst := true }, .scalar .int32⟩, .lvalue⟩ ⟨⟨{ isConst := true }, .scalar .float32⟩, .rvalue⟩,
+           find ⟨⟨{ volatile := true }, .scalar .int32⟩, .lvalue⟩ ⟨⟨{ volatile := true }, .scalar .float32⟩, .rvalue⟩ with
+     | .ok (some c1), .ok (some c2) => c1.primary.isSome && c1.modCast.isSome && c2.primary.isSome && c2.modCast.isSome
+     | _, _ => false) = true := by decide
 
 /-- an rvalue never converts to an lvalue -/
 theorem find_rejects_rvalue_to_lvalue (s d : ETy) (hs : s.vt = .rvalue) (hd : d.vt = .lvalue) :
@@ -76,12 +53,20 @@ theorem find_keeps_const {s d : ETy} (hd : d.vt = .lvalue)
 
 /-! ## soundness of elaboration -/
 
-/-- **Accepted expressions are well typed.**  If the (debug-build) type checker accepts an expression and computes
-    type `τ` for it, the produced IR expression has type `τ` under the IR's own typing rules, and so has — at some
-    type — every sub-expression, including the ones `Expression::get_type` never looks at (call arguments, cast
-    operands, conditions).  By induction over all source expressions. -/
-theorem elab_sound {Γ : Env} {e : SExpr} {e' : IExpr} {τ : ETy} (h : elabE true Γ e = .ok (e', τ)) :
-    HasType Γ e' τ := elab_sound_aux e e' τ h
+/-- **Accepted expressions are well typed — in debug and release builds.**  If the type checker accepts an
+    expression and computes type `τ` for it, the produced IR expression has type `τ` under the IR's own typing rules,
+    and so has — at some type — every sub-expression, including the ones `Expression::get_type` never looks at (call
+    arguments, cast operands, conditions).  By induction over all source expressions; the proof does not use the
+    debug-only type query of `parse_expr_internal`, it shows every node is built with operands of the right types. -/
+theorem elab_sound {Γ : Env} {dbg : Bool} {e : SExpr} {e' : IExpr} {τ : ETy} (h : elabE dbg Γ e = .ok (e', τ)) :
+    HasType Γ e' τ := elab_sound_any dbg e e' τ h
+
+/-- **The debug-build type query is redundant**: `parse_expr_internal`'s `cfg(debug_assertions)` check (and
+    `parse_expr`'s unconditional one) never fires; debug and release builds produce the same typed expression, the same
+    diagnostic or the same panic for every expression.  (Before fixes 828cdd4 / 660cfa4 / 276433e it fired for
+    `volatile int b; b = 1;`, `b++`, ... and release builds accepted `(int)(b = 1)` with an untypable node inside:
+    the former witness `release_accepts_ill_typed` is gone.) -/
+theorem elab_debug_check_redundant {Γ : Env} (e : SExpr) : elabE true Γ e = elabE false Γ e := elab_debug_eq e
 
 /-- non-vacuity: `v0 = v1 + 1` with `float v0; const int v1` is accepted and elaborates to
     `Assignment(v0, Cast(float, Add(Cast(int, v1), 1)))` -/
@@ -94,7 +79,7 @@ example :
 
 /-- **Every referenced definition exists**: all variable and function ids of an accepted expression are allocated
     in the environment (a consequence of the typing judgment, whose rules look the ids up) -/
-theorem ids_in_range {Γ : Env} {e : SExpr} {e' : IExpr} {τ : ETy} (h : elabE true Γ e = .ok (e', τ)) :
+theorem ids_in_range {Γ : Env} {dbg : Bool} {e : SExpr} {e' : IExpr} {τ : ETy} (h : elabE dbg Γ e = .ok (e', τ)) :
     IdsInRange Γ e' := ids_of_hasType e' τ (elab_sound h)
 
 /-- what it means for a typed statement to be well typed -/
@@ -104,9 +89,8 @@ def StmtTyped (Γ : Env) : IStmt → Prop
   | .ret (some e) => ∃ τ, HasType Γ e τ
   | .init _ e => ∃ τ, HasType Γ e τ
 
-theorem elabTop_sound {Γ : Env} {dbg : Bool} {e : SExpr} {e' : IExpr} {τ : ETy} (hd : dbg = true)
+theorem elabTop_sound {Γ : Env} {dbg : Bool} {e : SExpr} {e' : IExpr} {τ : ETy}
     (h : elabTop dbg Γ e = .ok (e', τ)) : HasType Γ e' τ := by
-  subst hd
   unfold elabTop at h
   split at h
   · simp at h
@@ -116,7 +100,8 @@ theorem elabTop_sound {Γ : Env} {dbg : Bool} {e : SExpr} {e' : IExpr} {τ : ETy
 
 /-- accepted statements (expression statement, `return`, initialised definition) are well typed, conversions to the
     return / variable type included -/
-theorem elabStmt_sound {Γ : Env} {s : SStmt} {s' : IStmt} (h : elabStmt true Γ s = .ok s') : StmtTyped Γ s' := by
+theorem elabStmt_sound {Γ : Env} {dbg : Bool} {s : SStmt} {s' : IStmt} (h : elabStmt dbg Γ s = .ok s') :
+    StmtTyped Γ s' := by
   cases s with
   | expr e =>
     simp only [elabStmt] at h
@@ -124,7 +109,7 @@ theorem elabStmt_sound {Γ : Env} {s : SStmt} {s' : IStmt} (h : elabStmt true Γ
     · simp at h
     · rename_i e' τ he
       simp at h; subst h
-      exact ⟨τ, elabTop_sound rfl he⟩
+      exact ⟨τ, elabTop_sound he⟩
   | ret eo =>
     cases eo with
     | none =>
@@ -144,7 +129,7 @@ theorem elabStmt_sound {Γ : Env} {s : SStmt} {s' : IStmt} (h : elabStmt true Γ
           · simp at h
           · rename_i hc
             simp at h; subst h
-            exact convert_typed ⟨τ, elabTop_sound rfl he⟩ hc
+            exact convert_typed ⟨τ, elabTop_sound he⟩ hc
   | init t e =>
     simp only [elabStmt] at h
     split at h
@@ -155,7 +140,7 @@ theorem elabStmt_sound {Γ : Env} {s : SStmt} {s' : IStmt} (h : elabStmt true Γ
       · simp at h
       · rename_i hc
         simp at h; subst h
-        exact convert_typed ⟨τ, elabTop_sound rfl he⟩ hc
+        exact convert_typed ⟨τ, elabTop_sound he⟩ hc
 
 /-! ## ill-typed programs are rejected
 
@@ -420,8 +405,8 @@ theorem binop_rules (b : BinOp) (i : IOp) (h : b.toIOp = some i) :
 /-- **Accepted assignments.**  An accepted `a op= b` elaborates to an assignment-family operator whose left operand
     is a non-const lvalue and whose right operand has exactly the type of the left one (the conversion is explicit);
     the result is the left operand's type. -/
-theorem elab_assign_exact {Γ : Env} {o : BinOp} {a b : SExpr} {e' : IExpr} {τ : ETy} (ho : o.cls = .assign)
-    (h : elabE true Γ (.bin o a b) = .ok (e', τ)) :
+theorem elab_assign_exact {Γ : Env} {dbg : Bool} {o : BinOp} {a b : SExpr} {e' : IExpr} {τ : ETy} (ho : o.cls = .assign)
+    (h : elabE dbg Γ (.bin o a b) = .ok (e', τ)) :
     ∃ i a' b' ta tb, e' = .op i (.cons a' (.cons b' .nil)) ∧ HasType Γ a' ta ∧ HasType Γ b' tb ∧
       ta.ty = tb.ty ∧ ta.vt = .lvalue ∧ ta.ty.mod.isConst = false ∧ τ = ta := by
   have hs := elab_sound h
@@ -484,8 +469,8 @@ theorem elab_assign_exact {Γ : Env} {o : BinOp} {a b : SExpr} {e' : IExpr} {τ 
                         all_goals (first | (simp at hret; done) | (simp at hret; exact hret.symm))
 
 /-- **Accepted arithmetic / comparison / bit / logical operators** receive two operands of exactly the same type -/
-theorem elab_arith_exact {Γ : Env} {o : BinOp} {a b : SExpr} {e' : IExpr} {τ : ETy} (ho : o.cls = .arith)
-    (h : elabE true Γ (.bin o a b) = .ok (e', τ)) :
+theorem elab_arith_exact {Γ : Env} {dbg : Bool} {o : BinOp} {a b : SExpr} {e' : IExpr} {τ : ETy} (ho : o.cls = .arith)
+    (h : elabE dbg Γ (.bin o a b) = .ok (e', τ)) :
     ∃ i a' b' ta tb, e' = .op i (.cons a' (.cons b' .nil)) ∧ HasType Γ a' ta ∧ HasType Γ b' tb ∧ ta.ty = tb.ty := by
   have hs := elab_sound h
   simp only [elabE] at h
@@ -514,11 +499,9 @@ theorem elab_arith_exact {Γ : Env} {o : BinOp} {a b : SExpr} {e' : IExpr} {τ :
           exact ⟨i, _, _, ta, tb, rfl, h1, h2, h3⟩)
 
 /-- **Accepted calls.**  The callee exists, the result has its return type, and every argument expression has
-    exactly the type of its parameter — no implicit conversion remains (signature parameter types carry no modifier:
-    `parse_function_signature` strips them). -/
-theorem elab_call_args_exact {Γ : Env} {name : Nat} {args : SArgs} {e' : IExpr} {τ : ETy}
-    (hp : ∀ s ∈ Γ.funcs, ∀ p ∈ s.params, p.ty.mod = {})
-    (h : elabE true Γ (.call name args) = .ok (e', τ)) :
+    exactly the type of its parameter — no implicit conversion remains. -/
+theorem elab_call_args_exact {Γ : Env} {dbg : Bool} {name : Nat} {args : SArgs} {e' : IExpr} {τ : ETy}
+    (h : elabE dbg Γ (.call name args) = .ok (e', τ)) :
     ∃ id s as' us, e' = .call id as' ∧ Γ.funcs[id]? = some s ∧ τ = s.ret.r ∧ HasArgs Γ as' us ∧
       ArgsMatch us s.params := by
   simp only [elabE] at h
@@ -527,7 +510,7 @@ theorem elab_call_args_exact {Γ : Env} {name : Nat} {args : SArgs} {e' : IExpr}
   · split at h
     · simp at h
     · rename_i as1 ts ha
-      have iha := elabArgs_sound_aux args as1 ts ha
+      have iha := elabArgs_sound_any dbg args as1 ts ha
       split at h
       · simp at h
       · rename_i n τn hn
@@ -539,8 +522,7 @@ theorem elab_call_args_exact {Γ : Env} {name : Nat} {args : SArgs} {e' : IExpr}
           simp only [Except.ok.injEq, Prod.mk.injEq] at hn
           obtain ⟨rfl, rfl⟩ := hn
           rename_i id _ _ s hs _ as'' hca
-          have hmem : s ∈ Γ.funcs := List.mem_of_getElem? hs
-          obtain ⟨us, h1, h2⟩ := castArgs_exact s.params as1 ts as'' (hp s hmem) iha hca
+          obtain ⟨us, h1, h2⟩ := castArgs_exact s.params as1 ts as'' iha hca
           exact ⟨id, s, as'', us, rfl, hs, rfl, h1, h2⟩)
 
 /-- writes to the source forms the property lists (literal, `a + b`, function result, and casts, `?:`, `a++`, `-a`, ...)
@@ -569,28 +551,12 @@ theorem elab_rejects_increment_of_rvalue_form {Γ : Env} {dbg : Bool} {o : UnOp}
 
 /-- **An rvalue reaches an `out` parameter.**  `void f0(out int); int1 v0; f0(v0)` is accepted and elaborates to
     `f0(Cast(int, v0))`: `find` allows `int1 → int` towards an lvalue, `apply` turns it into a cast.  (So
-    `elab_call_args_exact` cannot be strengthened to "lvalue arguments for out parameters".) -/
+    `elab_call_args_exact` cannot be strengthened to "lvalue arguments for out parameters"; still true after the fix batch.) -/
 theorem out_arg_receives_cast :
     (match elabE true { vars := [⟨{}, .vector .int32 1⟩],
                         funcs := [⟨0, [⟨⟨{}, .scalar .int32⟩, .out⟩], 1, ⟨{}, .scalar .int32⟩⟩] }
         (.call 0 (.cons (.var 0) .nil)) with
      | .ok (.call 0 (.cons (.cast _ (.var 0)) .nil), _) => true
      | _ => false) = true := by decide
-
-/-- **Release builds accept an ill-typed sub-expression.**  With `volatile int v0`, `(int)(v0 = 1)` is accepted when the
-    per-node check of debug builds is off, although the assignment inside has operands of different types
-    (`volatile int` and `int`) and therefore no type under the IR's rules.  (Debug builds panic instead:
-    `elab_sound` needs the check.) -/
-theorem release_accepts_ill_typed :
-    ∃ (Γ : Env) (e : SExpr) (e' : IExpr) (τ : ETy), elabTop false Γ e = .ok (e', τ) ∧ ¬ HasType Γ e' τ := by
-  refine ⟨{ vars := [⟨{ volatile := true }, .scalar .int32⟩], funcs := [] },
-    .cast ⟨{}, .scalar .int32⟩ (.bin .assignment (.var 0) (.lit .intLiteral)),
-    .cast ⟨{}, .scalar .int32⟩ (.op .assignment (.cons (.var 0) (.cons (.lit .int32) .nil))),
-    ⟨⟨{}, .scalar .int32⟩, .rvalue⟩, by rfl, ?_⟩
-  intro h
-  cases h with
-  | cast he =>
-    have := typeOf_of_hasType _ _ he
-    simp [typeOf, typesOf, opReturn, IOp.rule, scalarTy, Ty.r, Ty.l] at this
 
 end RsslVerif.Thm.C03
